@@ -45,7 +45,7 @@ def model(ctx):
     # every reindex= setting, numpy and chunked labels (smaller inputs: the configuration space is 6x larger)
     c2 = dict(maxlen=1 if ctx.tier == "quick" else 2, nlabels=2)
     cfg2 = MODEL_CFG.format(names=MODEL_NAMES, **c2).replace('Reindexes = {"none"}', 'Reindexes = {"none", "true", "false"}').replace("ByDasks = {FALSE}", "ByDasks = {FALSE, TRUE}").replace("NLabels2 = 0", "NLabels2 = 2").replace("ArrDasks = {TRUE}", "ArrDasks = {TRUE, FALSE}").replace('Engines = {"none"}', 'Engines = {"none", "flox"}')
-    res = shared.run_model(ctx, "Flox", cfg2 + INVS, name=f"Flox[{c2}, all reindex, numpy|dask labels, one|two groupers, chunked|in-memory array, engine none|flox]", constants=str(c2), timeout=3000, heap="12g")
+    res = shared.run_model(ctx, "Flox", cfg2 + INVS, name=f"Flox[{c2}, all reindex, numpy|dask labels, one|two groupers, chunked|in-memory array, engine none|flox]", constants=str(c2), timeout=5000, heap="24g")
     if res.violated:
         raise MachineryFailure(f"Flox.tla: {res.violated} violated in the composed model: {res.error_trace[-1:]}")
     small = MODEL_CFG.format(names='"nansum", "argmax"', maxlen=2 if ctx.tier == "quick" else 3, nlabels=2)
